@@ -13,7 +13,13 @@ import (
 var checks = map[string]func(*Checker){
 	"C01": checkC01,
 	"C02": checkC02,
+	"C03": checkC03,
 	"C04": checkC04,
+	"C05": checkC05,
+	"C15": checkC15,
+	"C10": checkC10,
+	"C11": checkC11,
+	"C12": checkC12,
 	"C13": checkC13,
 	"C14": checkC14,
 }
